@@ -146,3 +146,102 @@ def state_case(clause, sa, sb, what, cid):
     for p in (pa, pb):
         p.pop("sysname", None)
     return {"id": cid, "clause": clause, "kind": "state", "exact": True, "what": what, "a": pa, "b": pb, "outcome": "", "exc": ""}
+
+
+# ---------------------------------------------------------------------------------------------------------------
+# wire forms of params() / limits() / phases() / tree() for spec/TraceReports.tla
+PARAM_KEYS = ["vo", "vdrop", "rs", "rt", "eff", "ig", "iq", "ii", "iis", "pwr", "pwrs", "loss"]
+LIMIT_KEYS = ["vi", "vo", "vd", "ii", "io", "pi", "po", "pl", "tr", "tp"]
+
+
+def _cellrec(v):
+    """one cell of a parameter report as a tagged record"""
+    import numpy as np
+    from decwire import cell
+    if v is None or (isinstance(v, str) and v == ""):
+        return {"k": "blank", "v": [2, 0], "l": []}
+    if isinstance(v, (bool, np.bool_)):
+        return {"k": "b", "v": [1, 0] if v else [0, 0], "l": []}
+    if isinstance(v, str):
+        return {"k": "interp" if v == "interp" else "s", "v": [5, 0], "l": []}
+    if isinstance(v, (list, tuple)):
+        try:
+            return {"k": "l", "v": [2, 0], "l": [cell(x) for x in v]}
+        except Exception:
+            return {"k": "x", "v": [5, 0], "l": []}
+    c = cell(v)
+    if c[0] in (0, 1):
+        return {"k": "c", "v": c, "l": []}
+    return {"k": "x", "v": c, "l": []}
+
+
+def params_wire(df, with_params=True):
+    """params(limits=True) or limits(): rows [comp, type, p: key -> cell, l: key -> cell]; columns are recognised by the
+    parameter / limit key they start with (the unit text is not part of any statement)"""
+    blank = _cellrec("")
+    rows = []
+    cols = list(df.columns)
+    for rec in df.itertuples(index=False, name=None):
+        r = {"comp": "", "type": "", "p": {k: blank for k in PARAM_KEYS}, "l": {k: blank for k in LIMIT_KEYS},
+             "hasp": bool(with_params)}
+        for c, v in zip(cols, rec):
+            if c == "Component":
+                r["comp"] = str(v)
+            elif c == "Type":
+                r["type"] = str(v)
+            else:
+                key = str(c).split()[0]
+                is_lim = ("limit" in str(c)) or not with_params
+                if is_lim and key in LIMIT_KEYS:
+                    r["l"][key] = _cellrec(v)
+                elif not is_lim and key in PARAM_KEYS:
+                    r["p"][key] = _cellrec(v)
+        rows.append(r)
+    return rows
+
+
+def phases_wire(df):
+    """phases(): None -> isnone; rows [comp, type, domain, phase, rs, ii, pwr]"""
+    if df is None:
+        return {"isnone": True, "hasdomain": False, "rows": []}
+    rows = []
+    for rec in df.to_dict("records"):
+        rows.append({"comp": str(rec["Component"]), "type": str(rec["Type"]), "domain": str(rec.get("Domain", "")),
+                     "phase": str(rec["Active phase"]), "rs": _cellrec(rec["rs (Ohm)"]), "ii": _cellrec(rec["ii (A)"]),
+                     "pwr": _cellrec(rec["pwr (W)"])})
+    return {"isnone": False, "hasdomain": "Domain" in df.columns, "rows": rows}
+
+
+def tree_wire(s, name=""):
+    """tree(): the printed text as a list of [depth, name] in print order (depth 0 = the system name)"""
+    from project import capture_tree
+    txt = capture_tree(s, name)
+    out = []
+    for ln in txt.splitlines():
+        if not ln.strip():
+            continue
+        body = ln.lstrip(" │├└─")
+        depth = (len(ln) - len(body)) // 4
+        out.append([depth, body.rstrip()])
+    return out
+
+
+def report_case(s, cid, what):
+    """one validation case for TraceReports.tla: the projected state and the four reports"""
+    from project import project
+    st = project(s)
+    case = {"id": cid, "what": what, "st": st, "sysname": st.get("sysname", ""), "exc": ""}
+
+    def get(key, fn, dflt):
+        try:
+            with warnings.catch_warnings():
+                warnings.simplefilter("ignore")
+                case[key] = fn()
+        except Exception as e:
+            case[key] = dflt
+            case["exc"] += "%s:%s " % (key, type(e).__name__)
+    get("params", lambda: params_wire(s.params(limits=True)), [])
+    get("limits", lambda: params_wire(s.limits(), with_params=False), [])
+    get("phases", lambda: phases_wire(s.phases()), {"isnone": True, "hasdomain": False, "rows": []})
+    get("tree", lambda: tree_wire(s), [])
+    return case
